@@ -52,3 +52,21 @@ package lifecycle
 
 //verif:func (*Service).stopAndWaitTimeoutErr(s, pipelineID, phase, cause) (err)
 //verif:ensures[always-an-error] err != nil
+
+// ---- C11: publication discipline of a run (arch-v2) ---------------------------------
+//verif:func (*Service).WaitPipeline(s, id) (err)
+//verif:call[wait-on-the-live-run] tomb.(*Tomb).Wait requires result_of("csync.(*Map).Get", 1) && count("csync.(*Map).Get") == 1
+
+//verif:func (*Service).Start(s, ctx, pipelineID) (err)
+//verif:call[clear-old-result-before-new-run] (*Service).runPipeline requires called("csync.(*Map).Delete") && succeeded("(*Service).buildRunnablePipeline") && result_of("(*Instance).GetStatus", 0) != StatusRunning
+//verif:call[not-when-running] (*Service).buildRunnablePipeline requires result_of("(*Instance).GetStatus", 0) != StatusRunning
+
+//verif:func (*Service).Stop(s, ctx, pipelineID, force) (err)
+//verif:call[on-published-run] (*Service).stopRunnablePipeline requires result_of("csync.(*Map).Get", 1) && arg2 == result_of("csync.(*Map).Get", 0) && arg3 == force
+
+// Every goroutine of the run is registered with the tomb before the run is
+// published, and the run is published before the status says Running.
+//verif:func (*Service).runPipeline(s, rp) (err)
+//verif:call[publish-after-goroutines-registered] csync.(*Map).Set requires arg2 == rp && called("tomb.(*Tomb).Go") && count("builtin.close") >= 1
+//verif:call[publish-before-status] PipelineService.UpdateStatus requires called("csync.(*Map).Set") && arg2 == StatusRunning
+//verif:ensures[startup-signalled-on-every-path-after-publication] called("csync.(*Map).Set") ==> count("builtin.close") == 2
